@@ -230,6 +230,8 @@ class Interp(object):
       qn = fn.qualname
     elif isinstance(fn, types.FunctionType):
       qn = fn.__module__ + ":" + fn.__qualname__
+    elif isinstance(fn, type):
+      qn = fn.__module__ + ":" + fn.__qualname__
     if qn is None:
       return None
     return self.call_specs.get(qn)
@@ -550,6 +552,7 @@ class Interp(object):
     s.ranged = s1.ranged & s2.ranged
     s.bitdecomp = dict(s1.bitdecomp)
     s.bitdecomp.update(s2.bitdecomp)
+    s.has_quant = s1.has_quant or s2.has_quant
     s.unsigned_of = dict(s1.unsigned_of)
     s.unsigned_of.update(s2.unsigned_of)
     # decompositions whose defining facts are in the common prefix (made before the fork)
